@@ -58,7 +58,11 @@ class Check:
         self.known = load_known(pid)
         self.known_keys = {}
         self.known_prefixes = []
+        self.known_regexes = []
+        import re
         for f in self.known:
+            for k in f.get("key_regex", []):
+                self.known_regexes.append((re.compile(k), f))
             for k in f.get("keys", []):
                 if k.endswith("*"):
                     self.known_prefixes.append((k[:-1], f))
@@ -85,6 +89,11 @@ class Check:
             for pre, pf in self.known_prefixes:
                 if key.startswith(pre):
                     f = pf
+                    break
+        if f is None:
+            for rx, rf in self.known_regexes:
+                if rx.search(key):
+                    f = rf
                     break
         if f is not None:
             self.known_seen[f["id"]] = self.known_seen.get(f["id"], 0) + 1
